@@ -20,7 +20,7 @@ struct M
   bool creator[C08_MAXOBJ];
   int destroyed[C08_MAXOBJ];
   bool created[C08_MAXOBJ];
-  int extra_refs[C08_MAXOBJ];        // explicit refInc without matching refDec yet
+  long long extra_refs[C08_MAXOBJ];  // explicit refInc without matching refDec yet (incl. the fast-forwarded ones)
   int creator_releasing[C08_MAXOBJ];
   int op_tid_releases[1 + C08_MAXTHREADS];  // object the thread's current op may release (-1 none)
   int expect_dst[1 + C08_MAXTHREADS];
@@ -29,10 +29,10 @@ struct M
   int phase;
 } m;
 
-enum { P_DESTROY_BY_THREAD = 0, P_DESTROY_BY_T0, P_SELF_ASSIGN, P_ASSIGN_NULL, P_MOVE_FROM_EMPTY, P_CONV, P_CONCURRENT_COPY_SHARED, P_CREATOR_RELEASED_DURING, P_LAST_REF_DROPPED_BY_ASSIGN };
+enum { P_DESTROY_BY_THREAD = 0, P_DESTROY_BY_T0, P_SELF_ASSIGN, P_ASSIGN_NULL, P_MOVE_FROM_EMPTY, P_CONV, P_CONCURRENT_COPY_SHARED, P_CREATOR_RELEASED_DURING, P_LAST_REF_DROPPED_BY_ASSIGN, P_FAST_FORWARD };
 const char *probe_names[] = {"object_destroyed_by_worker_thread", "object_destroyed_by_thread0", "self_assignment", "assign_null_or_empty",
                              "move_from_empty_handle", "derived_to_base_conversion", "copy_from_shared_handle_in_thread",
-                             "creator_released_while_threads_run", "last_reference_dropped_by_assignment", nullptr};
+                             "creator_released_while_threads_run", "last_reference_dropped_by_assignment", "count_fast_forwarded_by_2^32-4", nullptr};
 const char *no_faults[] = {nullptr};
 
 int barriers_arrived;
@@ -92,11 +92,16 @@ void do_plan(int tier)
   for (int t = 0; t < plan.nthreads; t++)
     plan.barrier_at[t] = (int)sim_plan((uint32_t)plan.nops[t] + 1);
   plan.t0_drops_during = plan.nthreads ? (int)sim_plan(2) : 0;
+  plan.fast_forward = sim_plan(8) == 0;
+  if (plan.fast_forward) {
+    plan.release_creator_during[0] = 0;  // the explicit references are given back by thread 0 at the end
+    sim_probe(P_FAST_FORWARD);
+  }
 }
 
-int model_count(int obj)
+long long model_count(int obj)
 {
-  int c = m.creator[obj] ? 1 : 0;
+  long long c = m.creator[obj] ? 1 : 0;
   c += m.extra_refs[obj];
   for (int t = 0; t <= C08_MAXTHREADS; t++) {
     for (int s = 0; s < C08_SLOTS; s++)
@@ -160,6 +165,11 @@ void c08_phase(int ph)
 int c08_model_slot(int tid, int slot) { return m.slots[tid][slot].obj; }
 int c08_obj_alive(int obj) { return m.created[obj] && !m.destroyed[obj]; }
 int c08_payload_owner(int obj) { return (m.phase == 2 && plan.nthreads) ? 1 + obj % plan.nthreads : 0; }
+void c08_fast_forward(int obj, long long delta)
+{
+  sim_event(891, (uint64_t)obj, (uint64_t)delta);
+  m.extra_refs[obj] += delta;
+}
 void c08_barrier_arrive(int tid)
 {
   sim_event(890, (uint64_t)tid, 0);
@@ -341,9 +351,9 @@ void c08_creator_release_post(int obj)
 
 void c08_count(int obj, long long observed)
 {
-  int exp = model_count(obj);
+  long long exp = model_count(obj);
   sim_event(880, (uint64_t)obj, (uint64_t)observed);
   if (observed != exp)
-    sim_fail("C08:use-count-mismatch", "object %d: useCount()=%lld, creator reference + live handles = %d", obj, observed, exp);
+    sim_fail("C08:use-count-mismatch", "object %d: useCount()=%lld, creator reference + live handles + explicit references = %lld", obj, observed, exp);
 }
 }
